@@ -3,6 +3,6 @@
 cd /verif || exit 2
 ids="$@"; [ -z "$ids" ] && ids=$(ls seeded)
 for id in $ids; do
-  prop=$(python3 -c "import json;print(json.load(open('seeded/$id/meta.json'))['detected_by'][0])")
-  echo -n "$id -> "; tools/seedtest.sh seeded/$id/patch.diff $prop
+  prop=$(python3 -c "import json;print(json.load(open('seeded/$id/meta.json'))['detected_by'][0].split()[0].rstrip(','))")
+  echo -n "$id -> "; tools/seedtest.sh /verif/seeded/$id/patch.diff $prop
 done
